@@ -1,11 +1,14 @@
 """C06 — layout formatting never changes the significant tokens of the SQL."""
+import re
 import gen, streams, grammar, oracles
 from common import *
 import sqlparse
 from sqlparse import tokens as T
 
 RULE = ('grammar scripts (queries, DML, DDL, CTE; comments in any inter-token position) x combinations of the layout options (all boolean combinations in thorough, sampled in quick; '
-        'integer options from pools); non-trivial = distinct (script, option set) with at least one layout option on')
+        'integer options from pools); sweeps: every multi-line token kind x every line-break/blank payload, every ordered pair of lexical classes in four contexts, '
+        'every comment kind in every gap of six statement templates, every statement separator — each x the layout option sets; '
+        'non-trivial = distinct (script, option set) with at least one layout option on')
 ASSUMPTIONS = ['lexical bridge: the output is re-lexed by the real lexer', 'filters model tied by S-FMT (full format pipeline) on the same cases']
 PARTIAL = ['all four layout filters are proved to preserve the significant leaves at tree level; the lexical bridge (the serialized output re-lexes to the same tokens / same statement count) is oracle + S-FMT']
 BOOLS = ['reindent', 'reindent_aligned', 'strip_whitespace', 'use_space_around_operators', 'indent_tabs', 'indent_after_first', 'indent_columns', 'comma_first', 'compact']
@@ -69,6 +72,131 @@ def cases(ctx, n):
     return out
 
 
+# ---------------------------------------------------------------------------------------------------------------------------------
+# sweeps over finite tables (red-team round: every miss was a context the random grammar does not produce)
+OPTSETS = [{'strip_whitespace': True}, {'use_space_around_operators': True}, {'reindent': True}, {'reindent': True, 'comma_first': True},
+           {'reindent': True, 'indent_columns': True, 'wrap_after': 10}, {'reindent': True, 'compact': True, 'indent_after_first': True, 'indent_tabs': True},
+           {'reindent_aligned': True}, {'reindent': True, 'reindent_aligned': True, 'use_space_around_operators': True},
+           {'strip_whitespace': True, 'use_space_around_operators': True}, {}]
+
+# -- (1) tokens that may span lines: delimiters x payloads.  The serializer works on the rendered text line by line, so every kind of
+#        line break (and everything str.splitlines would split at), blanks in front of it and runs of empty lines go INSIDE every such token
+ML_KINDS = [("'", "'"), ('"', '"'), ('`', '`'), ('´', '´'), ('[', ']'), ('$$', '$$'), ('$t$', '$t$'), ('/*', '*/'), ('/*+', '*/'),
+            ("'it''s", "'"), ("'a\\'", "'"), ('"a\\"', '"'), ('"a""', '"'), ("E'\\\\", "'"), ('-- ', '\n'), ('# ', '\r\n'), ('--+ ', '\r')]
+ML_PAYLOADS = ['a \nb', 'a\t\r\nb', 'a\rb', 'a\n\n\n\nb', 'a \r\n \r\n\r\n\r\n\r\nb', 'a\x0cb', 'a\x0bb', 'a\x1cb', 'a\x1db', 'a\x1eb', 'a\x85b', 'a b',
+               'a b', 'a  b', ' a ', 'a \n', '\n a', 'a\xa0\nb', 'a\\\nb', 'a\\ \n\\b']
+ML_TEMPLATES = ['select %s from x', 'select 1, %s as c from x where y = %s', '%s', 'select a from x where b in (%s, %s) order by 1']
+
+
+def multiline_cases(ctx):
+    out = []
+    for ki, (o, c) in enumerate(ML_KINDS):
+        for pi, p in enumerate(ML_PAYLOADS):
+            tok = o + p + c
+            for ti, tpl in enumerate(ML_TEMPLATES):
+                text = tpl.replace('%s', tok)
+                opts = OPTSETS if not ctx.quick() else [OPTSETS[(ki + pi + ti) % len(OPTSETS)], {}]
+                for op in opts:
+                    out.append((text, op))
+    ctx.count('sweep.multiline', len(out))
+    return out
+
+
+# -- (2) every ordered pair of lexical classes next to each other, separated by whitespace, in four syntactic contexts
+NEIGHBOURS = ['a', 'null', 'from', '1', '-1', '1.5', '.5', '1e5', "'s'", '"q"', '[sq]', '$$d$$', '?', ':p', '%s', '$1', '@v', '#t',
+              '+', '-', '*', '/', '||', '->', '<', '=', '>', '!', '%', '&', '|', '.', ',', '(', ')', '[', ']', ':', '::', ':=', ';',
+              '/*c*/', '--c\n', 'not']
+NEIGHBOURS_THOROUGH = ['x1', '`b`', 'é', 'E', '~', '^', '#>', '@>', '<>', '0x1F', 'x.y', 'order by', "N'u'"]
+NB_TEMPLATES = ['select {p} from t', 'select * from t where {p} = 1', '({p})', 'select f({p}), c', '{p}']
+NB_COMBINED = 'select {p} from t where {p} = f({p})'
+NB_WS = [' ', '\n', '  ', '\t']
+
+
+def neighbour_cases(ctx):
+    out = []
+    rng = ctx.rng
+    quickopts = [{'strip_whitespace': True, 'use_space_around_operators': True}, {'reindent': True, 'use_space_around_operators': True}, {'reindent_aligned': True}]
+    pool = NEIGHBOURS if ctx.quick() else NEIGHBOURS + NEIGHBOURS_THOROUGH
+    for a in pool:
+        for b in pool:
+            if ctx.quick():
+                p = a + ' ' + b
+                out.append((NB_COMBINED.replace('{p}', p), quickopts[0]))
+                out.append((NB_COMBINED.replace('{p}', p), quickopts[rng.randint(1, 2)]))
+            else:
+                for w in NB_WS[:2]:
+                    p = a + w + b
+                    for tpl in NB_TEMPLATES:
+                        for op in quickopts + [OPTSETS[3]]:
+                            out.append((tpl.replace('{p}', p), op))
+    ctx.count('sweep.neighbours', len(out))
+    return out
+
+
+# -- (3) every comment kind in every gap of statement templates covering each construct the layout filters special-case
+GAP_TEMPLATES = [
+    'select a , b , c from t where x = 1 and y in ( 1 , 2 ) order by a , b',
+    'insert into t ( a , b ) values ( 1 , 2 ) , ( 3 , 4 )',
+    'update t set a = 1 , b = f ( x , y ) where c between 1 and 2 or d',
+    'select case when a = 1 then b else c end , count ( * ) over ( partition by d order by e ) from t join u on t . id = u . id',
+    'create table t ( a int not null , b varchar ( 10 ) )',
+    'with q as ( select a , b from t group by a , b having a > 1 ) select * from q union all select 1 limit 3',
+]
+GAP_COMMENTS = ['/* c */', '-- c\n', '/*+ h */', '--+ h\n', '# c\n', '-- c\r\n', '/* a\n b */']
+
+
+def gap_cases(ctx):
+    out = []
+    rng = ctx.rng
+    for tpl in GAP_TEMPLATES:
+        toks = tpl.split(' ')
+        for i in range(len(toks) + 1):
+            for c in (GAP_COMMENTS if not ctx.quick() else [rng.choice(GAP_COMMENTS)]):
+                for glue in ((' ', ' '), ('', '')) if not ctx.quick() else (rng.choice([(' ', ' '), ('', ''), ('', ' '), ('\n', '')]),):
+                    pre, post = glue
+                    if not pre and c.startswith('#'):
+                        pre = ' '
+                    text = ' '.join(toks[:i]) + pre + c + post + ' '.join(toks[i:])
+                    for k, op in enumerate(OPTSETS[:-1]):
+                        if ctx.quick() and (k + i) % 2:
+                            continue
+                        out.append((text, op))
+    ctx.count('sweep.comment_gaps', len(out))
+    return out
+
+
+# -- (4) statement separators: the formatted script must split into the same statements
+SEPARATORS = [';', '; ', ';\n', ' ;\n\n', '; -- c\n', ';-- c\n', '; /* c */ ', ';/* c */', '\nGO\n', '\ngo\n', '\nGO 2\n', ';;', '; ;', ';\r\n', ';\r', ' -- c\n;']
+SEP_STMTS = ['select 1', 'select a, b from t where x = 1', 'insert into t values (1)', 'update t set a = 1', 'begin', 'commit', "select 's'", 'select 1 -- c\n', 'select /* c */ 1']
+
+
+def separator_cases(ctx):
+    out = []
+    for si, sep in enumerate(SEPARATORS):
+        for ai, a in enumerate(SEP_STMTS):
+            for bi, b in enumerate(SEP_STMTS):
+                if ctx.quick() and (si + ai + bi) % 3:
+                    continue
+                for op in (OPTSETS if not ctx.quick() else [OPTSETS[(si + ai + bi) % len(OPTSETS)], OPTSETS[0]]):
+                    out.append((a + sep + b, op))
+                    out.append((a + sep + b + sep.rstrip(), op))
+    ctx.count('sweep.separators', len(out))
+    return out
+
+
+# -- (5) local search around inputs on which the model and the code disagree (a broken tie): the same text with a comment in each gap
+def around(text, opts, limit=400):
+    toks = [v for _, v in oracles.lex(text)]
+    out = []
+    for i in range(len(toks) + 1):
+        for c in ('/* c */', '-- c\n'):
+            out.append((''.join(toks[:i]) + c + ''.join(toks[i:]), opts))
+            out.append((''.join(toks[:i]) + ' ' + c + ' ' + ''.join(toks[i:]), opts))
+        if len(out) >= limit:
+            break
+    return out
+
+
 def run(ctx):
     cs = [(c['input'], c.get('options', {})) for c in streams.corpus('C06')] + cases(ctx, ctx.n(900, 20000))
     if not ctx.quick():
@@ -81,11 +209,114 @@ def run(ctx):
         for k in opts:
             ctx.count('opt:' + k)
         oracle(ctx, text, opts)
+    sweeps = multiline_cases(ctx) + neighbour_cases(ctx) + gap_cases(ctx) + separator_cases(ctx)
+    for text, opts in sweeps:
+        oracle(ctx, text, opts)
     ctx.samples += [[short(t, 70), o] for t, o in cs[:3]]
     if ctx.model.available and hasattr(streams, 's_fmt'):
         streams.s_fmt(ctx, cs[: ctx.n(500, 6000)])
+        # a broken tie is not a failing input: search around the disagreeing inputs
+        seen = 0
+        for m in list(ctx.mismatches):
+            inp = m.get('input')
+            if isinstance(inp, tuple) and len(inp) == 2 and isinstance(inp[0], str) and len(inp[0]) < 400:
+                for text, opts in around(inp[0], inp[1]):
+                    oracle(ctx, text, opts)
+                seen += 1
+                if seen >= 25:
+                    break
     else:
         ctx.notes.append('model driver unavailable: correspondence streams skipped')
+
+
+# ---------------------------------------------------------------------------------------------------------------------------------
+# known findings, each recognised by its mechanism (never by the input)
+def _ser_norm(v, single):
+    """what SerializerUnicode does to the text of ONE token that spans lines: every line but the last loses its trailing blanks, every
+    line break becomes \n (the last segment ends in the token's delimiter); a single-line comment is a line end itself"""
+    parts = re.split(r'\r\n|\r|\n', v)
+    out = '\n'.join([p.rstrip() for p in parts[:-1]] + [parts[-1]])
+    return out.rstrip() if single else out
+
+
+def _lexsig(text):
+    out = []
+    for tt, v in oracles.lex(text):
+        if tt in T.Whitespace:
+            continue
+        out.append((tt, v))
+    return out
+
+
+def only_serializer_normalisation(text, out, strings_too):
+    """KF-C06-2 / KF-C06-3: the output's tokens are the input's tokens except that inside comments, $$-literals, `…`, ´…´, […] names
+    (strings_too: also '…' and "…") line ends were normalised and blanks in front of them removed"""
+    a, b = _lexsig(text), _lexsig(out)
+    if len(a) != len(b):
+        return False
+    diff = 0
+    for (ta, va), (tb, vb) in zip(a, b):
+        single = ta in T.Comment.Single
+        if single:
+            va, vb = va.rstrip('\r\n'), vb.rstrip('\r\n')
+        na, nb = oracles.norm_kw(ta, va) if ta not in T.Comment else va, oracles.norm_kw(tb, vb) if tb not in T.Comment else vb
+        if ta is tb and na == nb:
+            continue
+        exempt = ta in T.Comment or ta is T.Literal or (ta is T.Name and va[:1] in '`´[') or (strings_too and (ta in T.String))
+        if not exempt or _ser_norm(va, single) != vb:
+            return False
+        if ta is not tb and not (single and vb == '#'):
+            # '# \n' (an empty hash comment) loses its blank and re-lexes as the operator '#'
+            return False
+        diff += 1
+    return diff > 0
+
+
+def quote_inside_other_token(text):
+    """a quote character inside a token that is not a '…'/"…" token (the serializer's regex pairs it with a later quote)"""
+    return any(tt not in T.String and ("'" in v or '"' in v) for tt, v in oracles.lex(text))
+
+
+def go_ends_inner_statement(text):
+    toks = [(tt, v) for tt, v in oracles.lex(text) if tt not in T.Whitespace]
+    for i, (tt, v) in enumerate(toks[:-1]):
+        if tt is T.Keyword and re.fullmatch(r'GO(\s\d+)?', v.upper()) and toks[i + 1][1] != ';':
+            return True
+    return False
+
+
+def hash_operator_before_token(text):
+    toks = oracles.lex(text)
+    return any(tt is T.Operator and v == '#' and toks[i + 1][0] not in T.Whitespace for i, (tt, v) in enumerate(toks[:-1]))
+
+
+def classify(f, kf):
+    ids = {k['id'] for k in kf}
+    if not isinstance(f.get('input'), str) or 'changed the sequence of significant tokens' not in f['what'] and 'different number of statements' not in f['what']:
+        return None
+    text = f['input']
+    try:
+        opts = eval(f['options']) if isinstance(f.get('options'), str) else (f.get('options') or {})
+        out = sqlparse.format(text, **opts)
+    except Exception:
+        return None
+    if 'KF-C06-2' in ids and only_serializer_normalisation(text, out, False):
+        return 'KF-C06-2'
+    if 'KF-C06-3' in ids and quote_inside_other_token(text) and only_serializer_normalisation(text, out, True):
+        return 'KF-C06-3'
+    if 'KF-C06-1' in ids and opts.get('strip_whitespace') and not opts.get('reindent') and go_ends_inner_statement(text):
+        return 'KF-C06-1'
+    if 'KF-C06-4' in ids and opts.get('use_space_around_operators') and hash_operator_before_token(text):
+        return 'KF-C06-4'
+    return None
+
+
+def replay_known(ctx, k):
+    c2 = type(ctx)(ctx.prop, ctx.tier, ctx.seed)
+    for w in k.get('witnesses', []):
+        o = w.get('options') or {}
+        oracle(c2, w['input'], eval(o) if isinstance(o, str) else o)
+    return len(c2.failures) > 0
 
 
 def replay(ctx, payload):
